@@ -147,7 +147,7 @@ Section Instr.
       let body' := instr_ss k' body in
       let orelse' := instr_ss k orelse in
       if sel "enter_for" then SFor n x (RGen n it') body' orelse'
-      else if sel "normal_exit_for" then SFor n x it' body' (sapp orelse' (s1 (rstmt (REvent "_exit_for_" n))))
+      else if sel "normal_exit_for" then SFor n x it' body' (Scons (rstmt (REvent "_exit_for_" n)) orelse')
       else SFor n x it' body' orelse'
     | SBreak n =>
       match loop k with
